@@ -12,6 +12,8 @@ CONSTANTS
   UseBoundary = TRUE
   DropTombstoneAlways = FALSE
   MaxOps = 14
+  WithBig = FALSE
+  Target = {}
   OutDir = "/tmp/lsmgen_out"
 INVARIANT ReadLatest
 INVARIANT LevelsWellFormed
